@@ -267,6 +267,9 @@ def dispatch (op : String) (j : Json) : Except String Json := do
       let old ← getStrs (← field j "old")
       let groups ← (← getArr (← field j "groups")).mapM getStrs
       return obj [("order", jStrs (regroup old groups))]
+  | "masters-ok" =>
+      let ms ← (← getArr (← field j "masters")).mapM getStrs
+      return obj [("ok", Json.bool (mastersOk ms))]
   | "accept-inputs" =>
       let ins ← (← getArr (← field j "inputs")).mapM (fun ij => do
         pure (⟨← getStr (← field ij "name"), ← getNats (← field ij "cps")⟩ : GlyphInput))
